@@ -45,9 +45,9 @@ CHECKS["C09"] = dict(level="other", design="3/C09", technique="IR equivalence of
     text="scaled->coarser scaled and scaled->integer conversions under each rounding tag equal x>>k, (x+2^(k-1))>>k, (x +/- 2^(k-1))/2^k for all source values; digit-preserving conversions equal the plain conversion; the bias arithmetic is searched for undefined operations over the whole source range; in floating->integer conversions the instruction adding +/-0.5 must work in a strictly wider floating type than the source; constructors of scaled_integer<rounding_integer<>> round by the destination's mode.",
     note="Floating-point value semantics beyond the precision rule, and radix != 2, are not decided.")
 
-CHECKS["C10"] = dict(level="other", design="3/C10", technique="type facts (clang constant values cross-checked by g++ static_assert) on the storage, numeric_limits and operator result types of multi-limb wide_integer instantiations",
-    text="Only the type-level clauses: beyond the widest built-in the rep is a multi-limb uintwide_t whose limb is the unsigned narrowest type, whose signedness is the narrowest type's and whose width is the smallest multiple of the limb width holding the digits plus the sign bit; numeric_limits digits / is_signed / digits_v / signedness_v; binary operator results have max(A, B) digits and are signed when either operand is; shifts and unary operators keep the operand's digits and signedness; comparisons return bool (12 digit counts x 6 narrowest types on the quick tier).",
-    note="The limb arithmetic itself (carry propagation, Knuth division, shifts across limbs, sign handling of / and %, conversions, text output) runs in data-dependent loops and is NOT decided: no static abstraction in reach relates it to arithmetic mod 2^N. A value-level slip inside uintwide_t (seeded change M-C02-3) is invisible to this check.")
+CHECKS["C10"] = dict(level="other", design="3/C10", technique="type facts (clang constant values cross-checked by g++ static_assert) on the storage, numeric_limits and operator result types of multi-limb wide_integer instantiations; a path rule over the four sign valuations (-O1 -fno-inline IR) on how the signed multi-limb type reduces / % compare and >> to the unsigned limb arithmetic",
+    text="Only the type-level clauses: beyond the widest built-in the rep is a multi-limb uintwide_t whose limb is the unsigned narrowest type, whose signedness is the narrowest type's and whose width is the smallest multiple of the limb width holding the digits plus the sign bit; numeric_limits digits / is_signed / digits_v / signedness_v; binary operator results have max(A, B) digits and are signed when either operand is; shifts and unary operators keep the operand's digits and signedness; comparisons return bool (12 digit counts x 6 narrowest types on the quick tier). Sign discipline of the signed multi-limb type (4 / 9 instantiations): is_neg tests the top bit of the most significant limb; operator/= and operator%= negate exactly the negative operands' copies, run one unsigned division on (copy of *this, copy of other), and negate the quotient iff the signs differ and the remainder iff the dividend is negative, on every path for each of the four sign valuations; compare orders negative below non-negative and defers equal signs to compare_ranges(this, other); right_shift_fill_value is all-ones exactly for negative values.",
+    note="The limb arithmetic itself (carry propagation, Knuth division, shifts across limbs, negate, conversions, text output) runs in data-dependent loops and is NOT decided: no static abstraction in reach relates it to arithmetic mod 2^N. The sign rules assume negate() is two's-complement negation and eval_divide_knuth unsigned division.")
 
 CHECKS["C11"] = dict(level="other", design="3/C11", technique="type facts on the composite types vs the interval oracle; must-pass-through of the overflow/elastic/rounding/wide layers on the -O0 call graph; IR equivalence of expression chains; line engine on narrowing assignments",
     text="static_integer/static_number are the documented compositions and every operator result keeps both tags with oracle-sufficient digits; from each public operator the call graph reaches a custom_operator of the overflow tag, from it one of elastic_tag, (for /) the rounding tag's divide, then wide_tag; three-operation chains equal plain arithmetic; narrowing assignments return the (mode-)rounded value inside the declared range and the bound / the right signal outside, for every source value.",
@@ -71,9 +71,12 @@ CHECKS["C19"] = dict(level="other", design="3/C19", technique="type facts and co
     text="sqrt's result types (elastic digits (D+1)/2 with an integer-sqrt oracle, scaled exponent E/2, odd exponents rejected), termination of both loops for all 8..128-bit reps, and absence of out-of-range shifts.",
     note="That the returned root is floor(sqrt(x)) — the digit-by-digit algorithm over run-time values, including root + bit at the top of the range — is NOT decided.")
 
+CHECKS["C20"] = dict(level="other", design="3/C20", technique="engine T on constexpr initialisers (every std::numbers constant x (Rep, Exponent) instantiation vs an exact integer-arithmetic oracle); IR equivalence of exp2 with the polynomial cut to an uninterpreted function; exact rational certificate of the coefficient table; type facts on intermediate widths",
+    text="Constants clause, complete over instantiations: the compiled initialiser of each of the 13 std::numbers specialisations for every (Rep, Exponent) that can hold it (8..64-bit reps; 3196 instantiations in the thorough tier) is floor(c/2^E) or that plus one, c enclosed by rationals computed with integers only. exp2 clause, structural part: for every input, rep(exp2(x)) == (P(frac x) >> (N+E-floor x)) + (1 << (floor x - E)) with the real evaluate_polynomial uninterpreted (all exponents of the 8/16/32-bit reps); P(0) == 0 (so integral x are exact); the coefficient table a1..a7 of each format defines a polynomial within 12 units of 2^-N of 2^t-1 at every representable grid point (beyond that exp2 must be off by two units there); products of the intermediate format keep 2N digits.",
+    note="The accumulated rounding of the fixed-point Horner evaluation, i.e. the one-unit bound for exp2 itself, is NOT decided (a statement about values); the series fall-backs pi()/e() are never selected on x86-64 long double and are not separately analysed.")
+
 NOT_APPLICABLE = {
     "C17": "termination/accuracy of the floating-point driven Stern-Brocot loop is a numerical statement with no structural clause (DESIGN 3/C17)",
-    "C20": "one-ulp accuracy of a minimax polynomial and of series constants is a statement about values; nothing of it is visible in types or code shape (DESIGN 3/C20)",
 }
 PENDING = "check not yet registered (build in progress; see DESIGN.md section 3 for the planned decision)"
 
